@@ -87,7 +87,7 @@ VRepair(e) ==
          THEN IF new # {} THEN V("C45_HealthyButPushed", L, {})
               ELSE IF NormRes(e.post) # exp.post \/ e.successful # exp.successful THEN V("C45_PostRepairResults", L, {})
               ELSE V("", L, {})
-       ELSE IF new # {} /\ ~MayRead(Cn, L) THEN V("C45_RepairedFromNothing", L, {})
+       ELSE IF new # {} /\ ~MayReadSome(Cn, L) THEN V("C45_RepairedFromNothing", L, {})
        ELSE IF \E p \in new, q \in new : p[2] = q[2] /\ p # q THEN V("C45_RepairPlacement", L, {})
        ELSE IF ~(Absent(Cn, L) \subseteq ShnumsOf(new)) THEN V("C45_RepairRestoresAbsent", L, {})
        ELSE IF NormRes(e.post) # exp.post THEN V("C45_PostRepairResults", T, new)
